@@ -57,10 +57,25 @@ theorem keygen_pass_independent (addr user p1 p2 : Str) (r : Reply) :
   | status c b => rfl
   | ok b => rfl
   | fail b m => rfl
+  | trunc b m => rfl
 
 /-- … nor on the key inside a successful response. -/
 theorem keygen_key_independent (addr user pass pre post : Str) {k1 k2 : Str} (h1 : NoNl k1) (h2 : NoNl k2) :
     keygen addr user pass (.ok (keyBody pre k1 post)) = keygen addr user pass (.ok (keyBody pre k2 post)) := by
+  unfold keygen keyBody
+  simp only [Reply.body, maskKey_independent h1 h2 pre post]
+
+/-- The `.login` entries of `getAPIKey` do not depend on the key either when the request fails
+after the `<key>` element has arrived (body cut off by an I/O error, or a status other than 200). -/
+theorem keygen_log_key_independent_trunc (addr user pass pre post m : Str) {k1 k2 : Str} (h1 : NoNl k1) (h2 : NoNl k2) :
+    keygen addr user pass (.trunc (keyBody pre k1 post) m) = keygen addr user pass (.trunc (keyBody pre k2 post) m) := by
+  unfold keygen keyBody
+  simp only [Reply.body, maskKey_independent h1 h2 pre post]
+
+theorem keygen_log_key_independent_status (addr user pass pre post : Str) (c : Nat) {k1 k2 : Str}
+    (h1 : NoNl k1) (h2 : NoNl k2) :
+    (keygen addr user pass (.status c (keyBody pre k1 post))).1 =
+      (keygen addr user pass (.status c (keyBody pre k2 post))).1 := by
   unfold keygen keyBody
   simp only [Reply.body, maskKey_independent h1 h2 pre post]
 
@@ -133,6 +148,7 @@ theorem panosReqs_independent (addr : Str) {k1 k2 : Str} (h1 : Safe k1) (h2 : Sa
         simp only [prefixGet, ih rs _ this]
       | status c b => simp [prefixGet]
       | fail b m => simp [prefixGet]
+      | trunc b m => simp [prefixGet]
 
 /-! ## SSH -/
 
